@@ -48,6 +48,7 @@ type sweepStats struct {
 	poolSer   map[string]bool
 	poolShape map[string]int
 	ncross    int
+	hangs     int
 }
 
 const maxPool = 14
@@ -115,6 +116,9 @@ func (st *sweepStats) cross() {
 }
 
 func (st *sweepStats) add(what, site, msg string) {
+	if msg == "hang" {
+		st.hangs++ // every call that does not come back costs a full deadline (and leaves a spinning goroutine): a sweep stops after a few
+	}
 	if len(st.bad) < 10 {
 		if len(msg) > 700 {
 			msg = msg[:700]
@@ -125,6 +129,9 @@ func (st *sweepStats) add(what, site, msg string) {
 
 // parseAndTouch: one parser call; if a value came back without error, every exported argument-free method on it.
 func parseAndTouch(st *sweepStats, rd Reader, in []byte, a Args, what string) {
+	if st.hangs >= 5 {
+		return
+	}
 	st.n++
 	var o ReadOut
 	if msg := guarded(func() { o = rd(in, a) }); msg != "" {
